@@ -262,11 +262,12 @@ fn ref_json_value(v: &serde_json::Value, bits: usize) -> Ref {
             } else if n.as_i64().is_some() {
                 Ref::Reject("negative")
             } else {
+                // A `Value` holds a number beyond u64/i64 as an f64: that f64 is the decoder's input here, and a
+                // non-negative integral f64 denotes exactly one integer.
                 let f = n.as_f64().unwrap_or(f64::NAN);
-                if f >= 0.0 && f.fract() == 0.0 {
-                    Ref::Any
-                } else {
-                    Ref::Reject("wrong-type")
+                match exact_f64_integer(f) {
+                    Some(x) => rv(&x, bits),
+                    None => Ref::Reject("wrong-type"),
                 }
             }
         }
@@ -274,9 +275,108 @@ fn ref_json_value(v: &serde_json::Value, bits: usize) -> Ref {
     }
 }
 
+/// The integer a finite, non-negative, integral f64 denotes.
+fn exact_f64_integer(f: f64) -> Option<BigUint> {
+    if !f.is_finite() || f < 0.0 || f.fract() != 0.0 {
+        return None;
+    }
+    let b = f.to_bits();
+    let e = ((b >> 52) & 0x7ff) as i64;
+    let frac = b & ((1u64 << 52) - 1);
+    if e == 0 {
+        return if frac == 0 { Some(BigUint::zero()) } else { None };
+    }
+    let mant = BigUint::from(frac | (1u64 << 52));
+    let sh = e - 1075;
+    Some(if sh >= 0 { mant << (sh as usize) } else { mant >> ((-sh) as usize) })
+}
+
+/// `doc` (surrounded by JSON whitespace) as a single JSON number literal: `None` if it is not one; otherwise
+/// the verdict for the exact rational it denotes (a non-negative integer, possibly written with a fraction
+/// and/or exponent, must decode to exactly that integer or be rejected; anything else must be rejected).
+fn ref_json_number_literal(doc: &[u8], bits: usize) -> Option<Ref> {
+    let t = std::str::from_utf8(doc).ok()?.trim_matches(|c| c == ' ' || c == '\t' || c == '\n' || c == '\r');
+    let b = t.as_bytes();
+    let mut i = 0;
+    let neg = b.first() == Some(&b'-');
+    if neg {
+        i += 1;
+    }
+    let int_start = i;
+    while i < b.len() && b[i].is_ascii_digit() {
+        i += 1;
+    }
+    let int_part = &t[int_start..i];
+    if int_part.is_empty() || (int_part.len() > 1 && int_part.starts_with('0')) {
+        return None;
+    }
+    let mut frac_part = "";
+    if i < b.len() && b[i] == b'.' {
+        let fs = i + 1;
+        i = fs;
+        while i < b.len() && b[i].is_ascii_digit() {
+            i += 1;
+        }
+        if i == fs {
+            return None;
+        }
+        frac_part = &t[fs..i];
+    }
+    let mut exp: i64 = 0;
+    if i < b.len() && (b[i] == b'e' || b[i] == b'E') {
+        i += 1;
+        let mut eneg = false;
+        if i < b.len() && (b[i] == b'+' || b[i] == b'-') {
+            eneg = b[i] == b'-';
+            i += 1;
+        }
+        let es = i;
+        while i < b.len() && b[i].is_ascii_digit() {
+            i += 1;
+        }
+        if i == es || i - es > 6 {
+            return None; // not a literal, or an exponent too large to judge exactly: leave it to the tokenizer path
+        }
+        exp = t[es..i].parse::<i64>().ok()?;
+        if eneg {
+            exp = -exp;
+        }
+    }
+    if i != b.len() {
+        return None;
+    }
+    // value = digits * 10^(exp - frac_len)
+    let digits = BigUint::parse_bytes(format!("{int_part}{frac_part}").as_bytes(), 10)?;
+    let e10 = exp - frac_part.len() as i64;
+    let value = if digits.is_zero() {
+        Some(BigUint::zero())
+    } else if e10 >= 0 {
+        if e10 > 5000 {
+            return Some(Ref::Reject("overrange"));
+        }
+        Some(digits * BigUint::from(10u8).pow(e10 as u32))
+    } else {
+        if -e10 > 100_000 {
+            return None;
+        }
+        let d = BigUint::from(10u8).pow((-e10) as u32);
+        if (&digits % &d).is_zero() { Some(digits / d) } else { None }
+    };
+    Some(match value {
+        None => Ref::Reject("wrong-type"),
+        Some(v) if neg && !v.is_zero() => Ref::Reject("negative"),
+        Some(v) => rv(&v, bits),
+    })
+}
+
 /// JSON document: tokenised by serde_json's own `Value` parser (third party,
 /// not under test); the string/number payload is judged by our grammar.
 fn ref_json_doc(doc: &[u8], bits: usize) -> Ref {
+    // A document that is one bare number literal denotes that number exactly, however the JSON library chooses
+    // to hand it to the visitor (serde_json rounds integers beyond u64 to an f64 first).
+    if let Some(r) = ref_json_number_literal(doc, bits) {
+        return r;
+    }
     match serde_json::from_slice::<serde_json::Value>(doc) {
         Ok(v) => ref_json_value(&v, bits),
         Err(_) => Ref::Reject("malformed-json"),
